@@ -2,16 +2,16 @@ SPECIFICATION Spec
 CONSTANTS
   Seeds <- MCSeeds
   ScenariosOf <- MCScenariosOf
-  MaxRead = 6
+  MaxRead = 5
   KF_FastInvertSkipsStopLine = FALSE
   KF_ReaderByteCountIgnoresPartial = FALSE
   MaxLines = 4
   Bodies <- BodiesMixed
   CtxMax = 2
-  Terms = {"lf", "crlf", "nul"}
+  Terms = {"lf", "crlf"}
   Strats = {"reader", "slice"}
   Paths = {"slow", "fast", "cand"}
-  Caps = {1, 2, 3, 4, 7}
+  Caps = {1, 3, 7}
   Flags = {"inv", "stopnm", "pass"}
   Bins = {"none"}
   PlanKinds = {}
